@@ -110,6 +110,24 @@ func pairGraph() parsley.Parser {
 	))
 }
 
+// mutual: two memoised rules, each directly AND mutually left-recursive, so that one Any
+// sees two alternatives curtailed at the same position (their curtailing sets are merged):
+// B -> B 'z' | A 'w' | 'n' ; A -> A 'x' | B 'y' | 'n'
+func mutualGraph() parsley.Parser {
+	var a, b parser.Func
+	b = combinator.Memoize(combinator.Any(
+		combinator.SeqOf(&b, terminal.Rune('z')).Bind(concatInterp),
+		combinator.SeqOf(&a, terminal.Rune('w')).Bind(concatInterp),
+		terminal.Rune('n'),
+	))
+	a = combinator.Memoize(combinator.Any(
+		combinator.SeqOf(&a, terminal.Rune('x')).Bind(concatInterp),
+		combinator.SeqOf(&b, terminal.Rune('y')).Bind(concatInterp),
+		terminal.Rune('n'),
+	))
+	return combinator.Sentence(&a)
+}
+
 // tokens: every literal terminal behind named alternatives and all trim modes - the
 // error paths (Name / ReturnError / IsNotFoundError) are where shared state used to live.
 func tokensGraph() parsley.Parser {
@@ -161,6 +179,8 @@ func (s *GraphSpec) construct() parsley.Parser {
 		return pairGraph()
 	case "tokens":
 		return tokensGraph()
+	case "mutual":
+		return mutualGraph()
 	case "manyopt":
 		// a repetition whose operand can match the empty string. On the unchanged tree this
 		// does not terminate (the premise "repetition operands consume input" is the
@@ -321,6 +341,14 @@ func (s *GraphSpec) genInput(r *Rand) string {
 		in = sb.String()
 		if r.Chance(1, 4) {
 			in = mutate(r, in, "?! \n=")
+		}
+	case "mutual":
+		in = "n"
+		for i, n := 0, r.Intn(6); i < n; i++ {
+			in += string("xyzw"[r.Intn(4)])
+		}
+		if r.Chance(1, 4) {
+			in = mutate(r, in, "nxyzw")
 		}
 	case "manyopt":
 		in = strings.Repeat("a", r.Intn(6))
